@@ -54,8 +54,26 @@ def entrySettingsClap (args : List String) : String :=
 /-- `settings-default` -/
 def entrySettingsDefault (_ : List String) : String := showConstructed (.ok Settings.default)
 
+def allErrKinds : List ErrKind :=
+  [.packetOverflow, .packetUnderflow, .packetBad, .packetSend, .packetReceive, .decompress, .socketConnect, .socketBind,
+   .invalidInput, .badGame, .autoQuery, .protocolFormat, .unknownEnumCast, .jsonParse, .typeParse, .hostLookup]
+
+/-- `gather <s|t|e> <ok|ErrorKindName>`: `maybeGather` on a section whose gathering function returned that outcome -/
+def entryGather (args : List String) : String :=
+  match args with
+  | [t, o] =>
+    let toggle : Option Toggle := if t == "s" then some .skip else if t == "t" then some .try_ else if t == "e" then some .enforce else none
+    let outcome : Option (Res Nat) :=
+      if o == "ok" then some (.ok 7) else (allErrKinds.find? (fun k => k.name == o)).map .err
+    match toggle, outcome with
+    | some toggle, some outcome =>
+      let (r, _) := maybeGather toggle (Q.lift outcome) (Net.init [] [])
+      showRes (showOpt toString) r
+    | _, _ => "bad-case"
+  | _ => "bad-case"
+
 def settingsEntries : List (String × (List String → String)) :=
   [("settings-new", entrySettingsNew), ("settings-serde", entrySettingsSerde), ("settings-clap", entrySettingsClap),
-   ("settings-default", entrySettingsDefault)]
+   ("settings-default", entrySettingsDefault), ("gather", entryGather)]
 
 end Gd.Run
